@@ -80,3 +80,42 @@ Qed.
 Lemma demo_rank :
   mu (run (std_sys (gen_store 3 1) (gen_store 5 2)) [ECtrlReq PA (mkMigReq CP_A CA 1024 2048 RB 128)]) = 49%nat.
 Proof. vm_compute. reflexivity. Qed.
+
+(** ** both directions at once on the model *)
+From VMem Require Import PmcBi PmcBi7.
+Definition cf_std : names :=
+  mkNames (fun w => match w with PA => RA | PB => RB end) (fun w => match w with PA => CA | PB => CB end)
+          (fun w => match w with PA => LA | PB => LB end) (fun w => match w with PA => MA | PB => MB end)
+          (fun w => match w with PA => gen_store 3 1 | PB => gen_store 5 2 end)
+          (fun _ a => a < 1024).
+Lemma cf_std_ok : names_okb cf_std.
+Proof.
+  unfold names_okb, cf_std, RA, RB, LA, LB, MA, MB; cbn.
+  repeat split; intros; try (match goal with w : who |- _ => destruct w end); cbn; discriminate.
+Qed.
+
+Definition bidir_round : list ev :=
+  [ETick PA; ETick PB; ESendRemote PA; ESendRemote PB; EDeliverRemote 0; EDeliverRemote 0;
+   ESendLocal PA; ESendLocal PB; EMemServe PA 0; EMemServe PB 0; EDeliverLocal PA 0; EDeliverLocal PB 0;
+   ETakeCtrl PA; ETakeCtrl PB].
+Definition bidir_schedule : list ev :=
+  ECtrlReq PA (mkMigReq CP_A CA 0 2048 RB 128) :: ECtrlReq PB (mkMigReq CP_B CB 512 4096 RA 64) ::
+  repeat_ev 30 bidir_round.
+
+Lemma bidir_ok : Forall (ok_evb cf_std) bidir_schedule.
+Proof.
+  unfold bidir_schedule. constructor; [|constructor].
+  - cbn. unfold wf_reqw. cbn. repeat split; try discriminate; intros a Ha; lia.
+  - cbn. unfold wf_reqw. cbn. repeat split; try discriminate; intros a Ha; lia.
+  - apply Forall_forall. intros e He.
+    assert (H : forallb (fun e => match e with ECtrlReq _ _ | EInject _ => false | _ => true end)
+                        (repeat_ev 30 bidir_round) = true) by (vm_compute; reflexivity).
+    rewrite forallb_forall in H. specialize (H e He). destruct e; cbn; auto; discriminate.
+Qed.
+
+Lemma bidir_result :
+  let s := run (sb_init cf_std) bidir_schedule in
+  g_done s = [MMigRsp (mkMigRsp CA CP_A)] /\ g_doneb s = [MMigRsp (mkMigRsp CB CP_B)] /\
+  read (sta s) 2048 128 = read (gen_store 5 2) 0 128 /\
+  read (stb s) 4096 64 = read (gen_store 3 1) 512 64.
+Proof. vm_compute. repeat split; reflexivity. Qed.
